@@ -239,6 +239,7 @@ def run(ctx):
                            "total_disagreements": len(bad)})
         scoping(ctx, forest, paths)
         known(ctx, forest)
+        collating_specials(ctx, forest)
         wrapper(ctx)
     finally:
         forest.close()
@@ -336,6 +337,24 @@ def known(ctx, forest):
                                "explain": "regardless of the order in which alternatives are written: the whole path, final newline included, must be consumed"})
 
 
+def collating_specials(ctx, forest):
+    """recorded finding: a collating symbol or equivalence class that names a character with a meaning of its own in a bracket
+    expression (] ^ - [ \\ :) is handed to the engine as written, and the engine, which has no such construct, ends the bracket
+    expression at the "]" of its ".]" - the pattern is accepted and matches something else"""
+    from props import known_common as kc
+    d = os.path.join(forest.dir, b"cs")
+    os.mkdir(d)
+    for n in (b"-", b"x", b"]", b"y", b".x]", b"[x]"):
+        open(os.path.join(d, n), "wb").close()
+    line = "find - %s %s" % (fw.hexs(forest.dir), xc.hexlist([b"cs", b"-regextype", b"posix-extended", b"-regex", b"cs/[[.-.]x]", b"-print0"]))
+    code, out, err = wc.decode_find(xc.run_impl([line])[0])
+    got = sorted(out.split(b"\0")[:-1])
+    ctx.count(("collating-specials",), True, "collating-specials")
+    kc._judge(ctx, "C17", "collating-specials", "find cs -regextype posix-extended -regex 'cs/[[.-.]x]' matches %s, not cs/- and cs/x (a collating symbol naming '-': the engine ends the bracket expression at its '.]')"
+              % [g.decode() for g in got], code == 0 and got == [b"cs/-", b"cs/x"], code == 0 and got == [b"cs/.x]", b"cs/[x]"],
+              "exit %s, matched %r" % (code, got))
+
+
 def wrapper(ctx):
     """the text handed to the engine: inside_group (hook) against the RegexWrap model, whose output is proved never to close the
     wrapping group (C17_wrapper_never_closed_early) - every pattern up to a length bound over the characters the scanner looks at,
@@ -357,6 +376,17 @@ def wrapper(ctx):
                       "\\{", "\\}", "\\{1,2\\}", "\\+", "\\?", "\\|", "\\\\", "[.a.]", "[=a=]", "[[.a.]-c]", "[[=a=]b]", "[.-.]", "[.:.]", "[=]=]", "[.ab.]", "[.", "[=", ".]", "+", "?", "{", "}"]
     for _ in range(20000 if ctx.thorough else 2000):
         pats.append("".join(rng.choice(pieces) for _ in range(rng.randint(1, 9))))
+    # bracket expressions by their structure: every sequence of up to three members (characters with a meaning of their own there,
+    # classes, collating symbols, equivalence classes), negated or not, followed by what the scanner must still read as outside
+    members = ["a", "]", "-", ":", "^", "[", ".", "=", "[.a.]", "[=b=]", "[:alpha:]", "[:punct:]", "[.-.]", "[.:.]", "[:"]
+    for n in range(1, 4):
+        for tup in itertools.product(members, repeat=n):
+            body = "".join(tup)
+            for neg in ("", "^"):
+                for tail in ("", "\\1", ")", "[.b.]", "(x)\\1"):
+                    if n == 3 and tail not in ("", "\\1") and not ctx.thorough:
+                        continue
+                    pats.append("x[" + neg + body + "]" + tail)
     cases = [(p, e) for p in pats for e in ("emacs", "posix-basic", "posix-extended", "grep")]
     il = ["rxwrap %s %s" % (e, fw.hexs(p.encode())) for p, e in cases]
     ml = ["rxwrap %s %s" % (e, ".".join(str(ord(c)) for c in p) if p else "-") for p, e in cases]
